@@ -57,3 +57,218 @@ theorem layout_sum (level length : Nat) (ws : List Nat) (req : Nat)
     | skip)
 
 end Dovi
+
+namespace Dovi
+
+theorem writeUe_length_pos {v : Nat} {w : Bits} (h : writeUe v = .ok w) : 1 ≤ w.length := by
+  unfold writeUe at h
+  split at h
+  · injection h with h; subst h; simp
+  · split at h
+    · cases h
+    · injection h with h; subst h; simp; omega
+
+theorem writeN_length {n v : Nat} {w : Bits} (h : writeN n v = .ok w) : w.length = n := by
+  unfold writeN at h
+  split at h
+  · injection h with h; subst h; simp
+  · cases h
+
+theorem blockBytes_pos (level length : Nat) (req : Nat) (hr : blockRequiredBits level length = some req)
+    (hv : validBlockLength level length = true) (h0 : level ≠ 0) : 1 ≤ blockBytes level length := by
+  unfold blockRequiredBits at hr
+  unfold validBlockLength at hv
+  unfold blockBytes
+  split at hr <;> simp_all
+  all_goals (first | omega | (rcases hv with (((rfl | rfl) | rfl) | rfl) | rfl <;> omega) | (rcases hv with rfl | rfl <;> omega))
+
+/-- every written block occupies at least 17 bits (so a count announced in `num_ext_blocks` passes the
+parser's `num_ext_blocks ≤ available / 16` guard) -/
+theorem writeBlock_length (b : Block) (w : Bits) (hw : writeBlock b = .ok w) (h0 : b.level ≠ 0)
+    (hlen : ∀ ws, blockWriteLayout b.level b.length = some ws → ws.length ≤ (blockWriteVals b).length) :
+    17 ≤ w.length := by
+  unfold writeBlock at hw
+  split at hw
+  · cases hw
+  · rename_i hv8
+    split at hw
+    · cases hw
+    · rename_i req hreq
+      dsimp only at hw
+      split at hw
+      · cases hw
+      · rename_i hpadlen
+        obtain ⟨parts, hparts, hout⟩ := wcat_eq_ok hw
+        obtain ⟨pLen, pLevel, pFields, pPad, rfl⟩ : ∃ a b c d, parts = [a, b, c, d] := by
+          match parts, hparts with
+          | [], h => simp at h
+          | [_], h => simp at h
+          | [_, _], h => simp at h
+          | [_, _, _], h => simp at h
+          | [a, b, c, d], _ => exact ⟨a, b, c, d, rfl⟩
+          | _ :: _ :: _ :: _ :: _ :: _, h => simp at h
+        simp only [List.map_cons, List.map_nil, List.cons.injEq, and_true] at hparts
+        obtain ⟨hL, hLv, hF, hP⟩ := hparts
+        injection hP with hP
+        have hvalid : blockValidate b = true := by
+          cases hbv : blockValidate b with
+          | true => rfl
+          | false => simp [hbv] at hF
+        simp only [hvalid, if_true] at hF
+        obtain ⟨fparts, hfp, hff⟩ := wcat_eq_ok hF
+        cases hlay : blockWriteLayout b.level b.length with
+        | none =>
+          simp [blockWriteFields, hlay] at hfp
+          cases fparts <;> simp at hfp
+        | some ws =>
+          simp only [blockWriteFields, hlay] at hfp
+          have hvl : validBlockLength b.level b.length = true := by
+            by_cases h8 : (b.level == 8 || b.level == 9 || b.level == 10) = true
+            · simp only [Bool.or_eq_true, beq_iff_eq] at h8
+              exact blockValidate_length b hvalid (by rcases h8 with (h | h) | h <;> simp [h])
+            · unfold validBlockLength
+              simp only [Bool.or_eq_true, beq_iff_eq, not_or] at h8
+              obtain ⟨⟨h8a, h8b⟩, h8c⟩ := h8
+              split <;> first | rfl | (exfalso; omega)
+          have hbytes := blockBytes_pos b.level b.length req hreq hvl h0
+          have hzipfst : (ws.zip (blockWriteVals b)).map (·.1) = ws := by
+            apply List.map_fst_zip
+            exact hlen ws hlay
+          have hfl := fields_length b.level ws (blockWriteVals b) fparts hfp
+          rw [hzipfst, layout_sum b.level b.length ws req hlay hreq hvl] at hfl
+          have hpf : pFields.length = req := by
+            rw [hff, List.length_flatten]; exact hfl
+          subst hout
+          subst hP
+          simp only [List.flatten_cons, List.flatten_nil, List.append_nil, List.length_append, List.length_replicate]
+          have h1 := writeUe_length_pos hL
+          have h2 := writeN_length hLv
+          omega
+
+end Dovi
+
+namespace Dovi
+
+/-- the blocks of a container that a parse reconstructs -/
+def Block.reparsed (b : Block) : Block :=
+  { level := b.level, length := blockBytes b.level b.length, vals := reparsedVals b }
+
+def BlockFits (allowed other : List Nat) (b : Block) : Prop :=
+  allowed.contains b.level = true ∧ other.contains b.level = false ∧ b.level ≠ 0 ∧
+  ∀ ws, blockWriteLayout b.level b.length = some ws → ws.length ≤ (blockWriteVals b).length
+
+/-- a sequence of written blocks is read back block by block -/
+theorem repeatP_parseBlock (allowed other : List Nat) (bs : List Block) (w r : Bits)
+    (hw : wcat (bs.map writeBlock) = .ok w) (hfit : ∀ b ∈ bs, BlockFits allowed other b) :
+    repeatP bs.length (parseBlock allowed other) (w ++ r) = .ok (bs.map Block.reparsed, r) := by
+  induction bs generalizing w with
+  | nil =>
+    simp [wcat] at hw
+    subst hw
+    rfl
+  | cons b bs ih =>
+    simp only [List.map_cons, wcat] at hw
+    cases hb : writeBlock b with
+    | error => simp [hb] at hw
+    | panic => simp [hb] at hw
+    | ok wb =>
+      simp only [hb] at hw
+      cases hr : wcat (bs.map writeBlock) with
+      | error => simp [hr, Res.bind] at hw
+      | panic => simp [hr, Res.bind] at hw
+      | ok wr =>
+        simp only [hr, Res.bind] at hw
+        injection hw with hw
+        subst hw
+        obtain ⟨h1, h2, _, h4⟩ := hfit b (by simp)
+        simp only [List.length_cons, repeatP, List.append_assoc]
+        rw [P.bind_of_ok (parseBlock_writeBlock allowed other b wb (wr ++ r) hb h1 h2 h4)]
+        rw [P.bind_of_ok (ih wr hr (fun x hx => hfit x (by simp [hx])))]
+        rfl
+
+theorem blocks_length (bs : List Block) (w : Bits) (allowed other : List Nat)
+    (hw : wcat (bs.map writeBlock) = .ok w) (hfit : ∀ b ∈ bs, BlockFits allowed other b) :
+    17 * bs.length ≤ w.length := by
+  induction bs generalizing w with
+  | nil => simp
+  | cons b bs ih =>
+    simp only [List.map_cons, wcat] at hw
+    cases hb : writeBlock b with
+    | error => simp [hb] at hw
+    | panic => simp [hb] at hw
+    | ok wb =>
+      simp only [hb] at hw
+      cases hr : wcat (bs.map writeBlock) with
+      | error => simp [hr, Res.bind] at hw
+      | panic => simp [hr, Res.bind] at hw
+      | ok wr =>
+        simp only [hr, Res.bind] at hw
+        injection hw with hw
+        subst hw
+        obtain ⟨_, _, h3, h4⟩ := hfit b (by simp)
+        have := writeBlock_length b wb hb h3 h4
+        have := ih wr hr (fun x hx => hfit x (by simp [hx]))
+        simp only [List.length_cons, List.length_append]
+        omega
+
+theorem readAlignZero_pad (k : Nat) (rest : Bits) (hk : k < 8) (hmod : (k + rest.length) % 8 = k % 8 + 0 ∨ True)
+    (hlen : (List.replicate k false ++ rest).length % 8 = k) :
+    readAlignZero (List.replicate k false ++ rest) = .ok ((), rest) := by
+  unfold readAlignZero
+  simp only [hlen]
+  have ht : List.take k (List.replicate k false ++ rest) = List.replicate k false := by
+    rw [List.take_left']; simp
+  have hd : List.drop k (List.replicate k false ++ rest) = rest := by
+    rw [List.drop_left']; simp
+  rw [ht, hd]
+  simp
+
+/-- **write → parse for a DM container**, at any bit position `pos` of a byte-aligned stream -/
+theorem parseContainer_writeContainer (allowed other : List Nat) (pos : Nat) (c : Container) (w r : Bits)
+    (hw : writeContainer pos c = .ok w)
+    (hn : c.num_ext_blocks = c.blocks.length)
+    (hfit : ∀ b ∈ c.blocks, BlockFits allowed other b)
+    (halign : (pos + (w ++ r).length) % 8 = 0) :
+    parseContainer allowed other (w ++ r) =
+      .ok ({ num_ext_blocks := c.blocks.length, blocks := c.blocks.map Block.reparsed }, r) := by
+  unfold writeContainer at hw
+  cases hu : writeUe c.num_ext_blocks with
+  | error => simp [hu, Res.bind] at hw
+  | panic => simp [hu, Res.bind] at hw
+  | ok un =>
+    simp only [hu, Res.bind] at hw
+    cases hb : wcat (c.blocks.map writeBlock) with
+    | error => simp [hb] at hw
+    | panic => simp [hb] at hw
+    | ok bs =>
+      simp only [hb] at hw
+      injection hw with hw
+      subst hw
+      unfold parseContainer
+      simp only [List.append_assoc]
+      rw [P.bind_of_ok (readUe_writeUe _ hu)]
+      rw [P.bind_of_ok (P.available_apply _)]
+      have hbl := blocks_length c.blocks bs allowed other hb hfit
+      have hcheck : decide (c.num_ext_blocks ≤ (alignPad (pos + un.length) ++ (bs ++ r)).length / 16) = true := by
+        simp only [decide_eq_true_eq, List.length_append]
+        rw [hn]
+        apply (Nat.le_div_iff_mul_le (by omega)).mpr
+        omega
+      rw [hcheck]
+      rw [P.bind_of_ok (P.ensure_true _)]
+      -- alignment
+      have hpadlen : (alignPad (pos + un.length)).length = (8 - (pos + un.length) % 8) % 8 := by
+        simp [alignPad]
+      have hal : (alignPad (pos + un.length) ++ (bs ++ r)).length % 8 = (8 - (pos + un.length) % 8) % 8 := by
+        simp only [List.length_append] at halign ⊢
+        rw [hpadlen]
+        omega
+      have hra : readAlignZero (alignPad (pos + un.length) ++ (bs ++ r)) = .ok ((), bs ++ r) := by
+        unfold alignPad at hal ⊢
+        exact readAlignZero_pad _ _ (by omega) (Or.inr trivial) hal
+      rw [P.bind_of_ok hra]
+      rw [hn]
+      rw [P.bind_of_ok (repeatP_parseBlock allowed other c.blocks bs r hb hfit)]
+      rfl
+
+end Dovi
